@@ -21,6 +21,41 @@ type edge struct {
 	st   *State
 }
 
+type edgeFrom struct {
+	cond string
+	from *ssa.BasicBlock
+}
+
+// pathConds lists conditions that together cover every way of reaching b, one per path into the nearest join
+// above b (depth joins deep); [""] when there is no join before the function entry or a loop header.
+func (f *Frame) pathConds(b *ssa.BasicBlock, depth int) []string {
+	if depth <= 0 {
+		return []string{""}
+	}
+	for n := 0; n < 1000; n++ {
+		es := f.inEdges[b]
+		if f.loops[b] != nil || len(es) == 0 {
+			return []string{""}
+		}
+		if len(es) == 1 {
+			b = es[0].from
+			continue
+		}
+		var out []string
+		for _, e := range es {
+			for _, sub := range f.pathConds(e.from, depth-1) {
+				if sub == "" {
+					out = append(out, e.cond)
+				} else {
+					out = append(out, "(and "+e.cond+" "+sub+")")
+				}
+			}
+		}
+		return out
+	}
+	return []string{""}
+}
+
 type loopInfo struct {
 	header   *ssa.BasicBlock
 	blocks   map[*ssa.BasicBlock]bool
@@ -62,6 +97,7 @@ type Frame struct {
 	params map[string]Val // entry values by name
 	reach  map[*ssa.BasicBlock]string
 	out    map[*ssa.BasicBlock][]edge
+	inEdges map[*ssa.BasicBlock][]edgeFrom
 	loops  map[*ssa.BasicBlock]*loopInfo
 	rets   []retInfo
 	depth  int
@@ -357,6 +393,20 @@ func (f *Frame) run(st *State, reach string, args []Val, bindings []Val) {
 			} else {
 				c.fact("(= " + r + " (or " + strings.Join(conds, " ") + "))")
 			}
+			if f.inEdges == nil {
+				f.inEdges = map[*ssa.BasicBlock][]edgeFrom{}
+			}
+			f.inEdges[b] = nil
+			for _, p := range b.Preds {
+				for si, s := range p.Succs {
+					if s != b || (b.Dominates(p) && f.loops[b] != nil) {
+						continue
+					}
+					if es, ok := f.out[p]; ok && si < len(es) && es[si].st != nil {
+						f.inEdges[b] = append(f.inEdges[b], edgeFrom{cond: es[si].cond, from: p})
+					}
+				}
+			}
 			cur = f.merge(ins, b)
 			if li := f.loops[b]; li != nil {
 				cur, r = f.enterLoop(li, cur, r)
@@ -402,7 +452,26 @@ func (f *Frame) merge(ins []edge, b *ssa.BasicBlock) *State {
 			cellSet[k] = true
 		}
 	}
+	var cellKeys []*ssa.Alloc
 	for k := range cellSet {
+		cellKeys = append(cellKeys, k)
+	}
+	// deterministic order: the names of the merge constants (and so the text of every query) must not depend on
+	// map iteration order
+	sort.Slice(cellKeys, func(i, j int) bool {
+		a, b := cellKeys[i], cellKeys[j]
+		if a.Parent() != b.Parent() {
+			return a.Parent().String() < b.Parent().String()
+		}
+		if a.Pos() != b.Pos() {
+			return a.Pos() < b.Pos()
+		}
+		if a.Comment != b.Comment {
+			return a.Comment < b.Comment
+		}
+		return a.Name() < b.Name()
+	})
+	for _, k := range cellKeys {
 		first, ok0 := ins[0].st.cells[k]
 		same := ok0
 		all := true
@@ -472,7 +541,12 @@ func (f *Frame) merge(ins []edge, b *ssa.BasicBlock) *State {
 			gset[k] = true
 		}
 	}
+	var gkeys []string
 	for k := range gset {
+		gkeys = append(gkeys, k)
+	}
+	sort.Strings(gkeys)
+	for _, k := range gkeys {
 		first := c.ghostTerm(ins[0].st, k)
 		same := true
 		for _, e := range ins[1:] {
@@ -493,7 +567,18 @@ func (f *Frame) merge(ins []edge, b *ssa.BasicBlock) *State {
 		res.ghosts[k] = m
 	}
 	// iterators
-	for k, first := range ins[0].st.iters {
+	var itKeys []ssa.Value
+	for k := range ins[0].st.iters {
+		itKeys = append(itKeys, k)
+	}
+	sort.Slice(itKeys, func(i, j int) bool {
+		if itKeys[i].Pos() != itKeys[j].Pos() {
+			return itKeys[i].Pos() < itKeys[j].Pos()
+		}
+		return itKeys[i].Name() < itKeys[j].Name()
+	})
+	for _, k := range itKeys {
+		first := ins[0].st.iters[k]
 		same := true
 		for _, e := range ins[1:] {
 			if v, ok := e.st.iters[k]; !ok || v.T != first.T {
